@@ -594,12 +594,36 @@ func (t *tokenizer) skipBlob() (int, error) {
 	return t.read()
 }
 
-// SkipBlobHelper skips over a blob value, stopping after reading the
+// SkipBlobHelper skips over a blob or clob value, stopping after reading the
 // final '}'.
 func (t *tokenizer) skipBlobHelper() error {
 	c, _, err := t.skipLobWhitespace()
 	if err != nil {
 		return err
+	}
+
+	// The text of a clob may contain '}' and quotes: skip it as the string it is.
+	if c == '"' {
+		if err = t.skipStringHelper(); err != nil {
+			return err
+		}
+		if c, _, err = t.skipLobWhitespace(); err != nil {
+			return err
+		}
+	} else if c == '\'' {
+		ok, err := t.IsTripleQuote()
+		if err != nil {
+			return err
+		}
+		if !ok {
+			return t.invalidChar(c)
+		}
+		if err = t.skipLongStringHelper(t.ensureNoCommentsHandler); err != nil {
+			return err
+		}
+		if c, _, err = t.skipLobWhitespace(); err != nil {
+			return err
+		}
 	}
 
 	// https://github.com/amzn/ion-go/issues/115
